@@ -170,7 +170,12 @@ namespace via
           if (is_an_ssl_disconnect || is_error_a_disconnect(error))
             event_callback_(DISCONNECTED, weak_from_this());
           else
+          {
             error_callback_(error, weak_from_this());
+            // Note: no more reads or writes are started after an error,
+            // so the connection can only be disconnected.
+            event_callback_(DISCONNECTED, weak_from_this());
+          }
         }
       }
 
